@@ -53,8 +53,9 @@ CLAIMS = {
                 "returned column is the same-mask selection of a thrown-length attribute (length-class typing); unit "
                 "discipline of all ~100 trigonometric / degree-radian call sites of throw and "
                 "find_lat_long_along_traj with declared units of the public angles; scatter coverage and guard "
-                "consistency of the line-of-sight stores. Two genuine defects (unguarded Cardano-branch store, "
-                "uncovered partition at the faces of the cube) are listed in known_findings.json. It does NOT decide "
+                "consistency of the line-of-sight stores (or, for the direct form, that the path length is clipped into "
+                "[minLOS, maxLOS]). The two genuine defects it found (unguarded Cardano-branch store, uncovered "
+                "partition at the faces of the cube) were repaired in /repo commit 5c07f2c. It does NOT decide "
                 "exactness of the inverse CDF, spot distance, beta from explicit vectors or positions at s>0.",
         "technique": "value-flow graph + interval, unit, length-class and truth-table predicate analyses",
     },
